@@ -40,6 +40,9 @@ type VM struct {
 	Lang    string             // current language code ("" = none)
 	Pending []codec.Ins
 	Last    string // last stored value (delivered with the final page of a graceful end)
+	// lastLevel: index into Scopes of the scope the last stored value lives in; when that scope is left the
+	// value is gone ("gone as soon as execution ascends above the level where it was loaded")
+	lastLevel int
 
 	mapped   map[string]string
 	mapOrder []string
@@ -230,6 +233,9 @@ func (v *VM) move(target string) (NavResult, bool) {
 	// keep one scope per stack element
 	for len(v.Scopes) > len(v.Nav.Stack)+1 {
 		v.Scopes = v.Scopes[:len(v.Scopes)-1]
+	}
+	if v.lastLevel >= len(v.Scopes) {
+		v.Last = ""
 	}
 	for len(v.Scopes) < len(v.Nav.Stack)+1 {
 		v.Scopes = append(v.Scopes, map[string]Entry{})
@@ -460,7 +466,7 @@ func (v *VM) exec(in codec.Ins, input []byte, r *Resp) (stop, string) {
 			return failed, ""
 		}
 		v.Scopes[len(v.Scopes)-1][in.Sym] = Entry{Val: val, Limit: uint16(in.N)}
-		v.Last = val
+		v.Last, v.lastLevel = val, len(v.Scopes)-1
 		return goOn, ""
 	case codec.RELOAD:
 		if v.afterCroak[in.Sym] {
@@ -522,10 +528,11 @@ func (v *VM) exec(in codec.Ins, input []byte, r *Resp) (stop, string) {
 		if v.Flags[in.N] != in.Mode {
 			return goOn, ""
 		}
-		if len(v.mapOrder) > 0 || len(v.menu) > 0 || v.next != nil || v.prev != nil || v.msink {
-			return undefined, "taken CATCH with page state (not documented whether it survives)"
+		if len(v.menu) > 0 || v.next != nil || v.prev != nil || v.msink {
+			return undefined, "taken CATCH with menu state (not documented whether it survives)"
 		}
-		return v.doMove(in.Sym, true, true)
+		// a mapping lasts "only until the next move", and a taken CATCH is a move
+		return v.doMove(in.Sym, true, len(v.mapOrder) == 0)
 	case codec.CROAK:
 		if in.N < 6 {
 			return undefined, "CROAK on an internal flag"
